@@ -6,6 +6,7 @@ import DhtVerif.Props.C05
 import DhtVerif.Lemmas.C06
 import DhtVerif.Props.STNodes
 import DhtVerif.Props.ST2Questionable
+import DhtVerif.Props.ST2Local
 namespace Dht
 
 /-- The events through which (id, addr) may enter: a query or a matched
@@ -295,5 +296,13 @@ sources) is the model's `isQuestionable`. -/
 theorem C06.isQuestionable_is_the_source (c : TableCfg) (now : Nat) (n : Node) :
     DExp.evalWith noCond (iqRet c now n) Gen.treeIsQuestionable = some (isQuestionable c now n) :=
   SourceTrees.isQuestionable c now n
+
+/-- T1 by translation: under enforcement admission turns on `NodeIdSecure`, whose exemption for local networks is
+`isLocalNetwork` in security.go (with the networks its `init` parses) - the model's `isLocalNetwork`, for all addresses.
+(An exemption widened to ranges that merely look private admits arbitrary IDs from there.) -/
+theorem C06.isLocalNetwork_is_the_source (ip : List UInt8) :
+    Gen.treeSecurityInitLets = ilnInitExpected ∧
+    DExp.evalWith (ilnCond ip) boolRet Gen.treeIsLocalNetwork = some (isLocalNetwork ip) :=
+  SourceTrees.isLocalNetwork ip
 
 end Dht
